@@ -95,6 +95,12 @@ def arrToBitmapBits (v : List Nat) : List Nat :=
 
 def arrToBitmap (v : List Nat) : BStore := { len := v.length, bits := arrToBitmapBits v }
 
+/-- array_store/mod.rs:224-232 `to_bitmap_store` *with* its closing `BitmapStore::from_unchecked(len, bits)` (`none` =
+    the debug `try_from(..).unwrap()` panics).  `Lemmas/MirrorLemmas.lean`: `= some (arrToBitmap v)` for every
+    `Arr.Inv v` (this is the second conjunct of `Arr.Safe_toBitmap`, C16). (fidelity audit) -/
+def arrToBitmapOp (dbg : Bool) (v : List Nat) : Option BStore :=
+  BStore.fromUnchecked dbg v.length (arrToBitmapBits v)
+
 def isDisjoint : Store → Store → Bool
   | .array a, .array b => Arr.isDisjoint a b
   | .bitmap a, .bitmap b => a.isDisjoint b
